@@ -156,4 +156,4 @@ def replay_story(prop, path):
 
 def is_story(path):
     b = os.path.basename(path)
-    return b.startswith("faultstory_") or b.startswith("inflightstory_") or b.startswith("renewstory_") or b.startswith("ackstory_") or b.startswith("pinstory_")
+    return b.startswith("faultstory_") or b.startswith("inflightstory_") or b.startswith("renewstory_") or b.startswith("ackstory_") or b.startswith("pinstory_") or b.startswith("scanstory_")
